@@ -394,6 +394,8 @@ type SplitInput struct {
 	// TwoRevs: two revisions of m are loaded, both with this body and these includes; each must be
 	// the whole module
 	TwoRevs bool `json:"two_revisions,omitempty"`
+	// Nested: the main module includes only s1, which includes s2 (needs Cross[0])
+	Nested bool `json:"nested_include_only,omitempty"`
 }
 
 func splitFiles(in SplitInput) []dump.File {
@@ -402,6 +404,9 @@ func splitFiles(in SplitInput) []dump.File {
 		body[in.Place[i]] += " " + it.text
 	}
 	main := `module m { namespace "urn:m"; prefix m; include s1; include s2;` + body[0] + ` }`
+	if in.Nested {
+		main = `module m { namespace "urn:m"; prefix m; include s1;` + body[0] + ` }`
+	}
 	inc := [3]string{}
 	if in.Cross[0] {
 		inc[1] = " include s2;"
@@ -433,6 +438,10 @@ func resolvable(in SplitInput) bool {
 		for _, n := range it.needs {
 			w := where[n]
 			switch {
+			case in.Nested && b == 0 && w == 2:
+				// the main module does not include s2 itself: whether it sees what s2 defines is
+				// not claimed (RFC 6020 makes a nested include serve the including submodule)
+				return false
 			case w == b, b == 0 && w != 0:
 			case b == 1 && w == 2 && in.Cross[0]:
 			case b == 2 && w == 1 && in.Cross[1]:
@@ -459,11 +468,18 @@ func mainTreeOf(ms *yang.Modules, key string) string {
 	// not compared, only what they are derived into)
 	var ids []string
 	all := append([]*yang.Identity{}, e.Identities...)
-	for _, in := range m.Include {
-		if in.Module != nil {
-			all = append(all, yang.ToEntry(in.Module).Identities...)
+	seenSub := map[*yang.Module]bool{}
+	var subs func(x *yang.Module)
+	subs = func(x *yang.Module) {
+		for _, in := range x.Include {
+			if in.Module != nil && !seenSub[in.Module] {
+				seenSub[in.Module] = true
+				all = append(all, yang.ToEntry(in.Module).Identities...)
+				subs(in.Module)
+			}
 		}
 	}
+	subs(m)
 	for _, id := range all {
 		s := id.Name + " values=["
 		for _, v := range id.Values {
@@ -796,6 +812,27 @@ func run(c *core.Ctx) {
 						c.Sample(string(b))
 					}
 				}
+				if in.Cross[0] && !in.Cross[1] {
+					// the same partition with s2 reached only through s1's include
+					in3 := in
+					in3.Nested = true
+					caseNo, run := c.Begin()
+					if !resolvable(in3) {
+						c.Exclude()
+						c.Outcome("excluded:reference-not-visible-from-its-submodule")
+					} else if !c.Skip(caseNo, run, Input{Split: &in3}) {
+						c.Exec()
+						c.Edge(3)
+						c.StateN(1)
+						c.Validate()
+						c.NontrivialN(1)
+						if f := checkSplit(in3); f != nil {
+							report(caseNo, Input{Split: &in3}, f)
+						} else {
+							c.Outcome("split-equals-unsplit-with-nested-include")
+						}
+					}
+				}
 				if cnt%16 == 3 || c.Tier == "thorough" {
 					// the same partition as two revisions of m that both include the submodules
 					in2 := in
@@ -905,7 +942,7 @@ func permute(a []int, f func([]int)) {
 func init() {
 	core.Register(&core.Prop{
 		ID: "C13", Variant: "plain", Shards: shards, Run: run, Replay: replay,
-		Rule:        "rev: every sequence (with repeats) of header variants of one module name whose revision lists are {}, {r1}, {r2}, {r2,r1}, {r1,r2}, {r3,r2}, and a second text with {r1}, as modules (import) and as submodules (include): a load is rejected iff the same latest revision of the name is already loaded, the bare key and a date-less import/include bind the latest loaded revision, a dated one binds exactly that revision when loaded, and all orders of one multiset reach the same registry and bindings; file: every layout of candidate and near-miss names (a.yang, a@date.yang, ab.yang, ab@date.yang, a@bad.yang, a@2022-1-1.yang, ...) over two search-path directories (the current directory is empty), as real files whose content identifies them: Modules.Read must open the file the reference chooser picks (first directory with a candidate; name.yang, else latest date; never a near miss) or fail when there is none; split: 9 body items (typedef, users of it, grouping, uses, identities, identityref, augment of an own node, rpc) in every partition into main module + 2 submodules with every cross-include pattern under which references stay visible, 3 load orders: the main module's tree and identities must dump exactly like the unsplit module; every 16th partition (thorough: every one) also as two revisions of the main module that both include the submodules - each revision must be the whole module. states = distinct sequences/layouts/partitions",
+		Rule:        "rev: every sequence (with repeats) of header variants of one module name whose revision lists are {}, {r1}, {r2}, {r2,r1}, {r1,r2}, {r3,r2}, and a second text with {r1}, as modules (import) and as submodules (include): a load is rejected iff the same latest revision of the name is already loaded, the bare key and a date-less import/include bind the latest loaded revision, a dated one binds exactly that revision when loaded, and all orders of one multiset reach the same registry and bindings; file: every layout of candidate and near-miss names (a.yang, a@date.yang, ab.yang, ab@date.yang, a@bad.yang, a@2022-1-1.yang, ...) over two search-path directories (the current directory is empty), as real files whose content identifies them: Modules.Read must open the file the reference chooser picks (first directory with a candidate; name.yang, else latest date; never a near miss) or fail when there is none; split: 9 body items (typedef, users of it, grouping, uses, identities, identityref, augment of an own node, rpc) in every partition into main module + 2 submodules with every cross-include pattern under which references stay visible, 3 load orders: the main module's tree and identities must dump exactly like the unsplit module; partitions in which s1 includes s2 also with the main module including only s1; every 16th partition (thorough: every one) also as two revisions of the main module that both include the submodules - each revision must be the whole module. states = distinct sequences/layouts/partitions",
 		Assumptions: []string{"when a dated import names a revision that is not loaded the statement is silent and nothing is compared", "partitions in which a submodule would need a definition of its owner or of a submodule it does not include are excluded (visibility inside submodules is not what C13 claims)", "no symlinks, permission errors or concurrent modification of the directories"},
 	})
 }
